@@ -160,8 +160,20 @@ impl Violation {
     /// A signature that is stable across runs: kind + detail with random
     /// identifiers (hex runs, numbers) masked.
     pub fn signature(&self) -> String {
-        format!("{}|{}", self.kind, normalize(&self.detail))
+        format!("{}|{}", self.kind, stable_detail(&self.kind, &self.detail))
     }
+}
+
+/// The part of a finding's detail that identifies it across runs: for a
+/// task loop that never goes quiet the list of the last tasks (class numbers
+/// that keep counting up, whichever task happened to be last) is dropped.
+pub fn stable_detail(kind: &str, detail: &str) -> String {
+    if kind == "fatal" {
+        if let Some(i) = detail.find("livelock?") {
+            return normalize(&detail[..i + "livelock?".len()]);
+        }
+    }
+    normalize(detail)
 }
 
 pub fn normalize(s: &str) -> String {
